@@ -99,6 +99,8 @@ type FuncContract struct {
 	Extern   bool
 	Params   []QVar // for extern/spec
 	Results  []QVar
+	// MoreFiles: further contract files that add clauses to this function
+	MoreFiles []string
 }
 
 type SpecFunc struct {
@@ -124,6 +126,9 @@ type TypeContract struct {
 	ProtectedBy map[string][]string // mutex -> fields
 	Immutable   []string
 	Inv         []Clause
+	Sync        []string            // synchronisation objects / self-synchronised members
+	OwnerLock   map[string][]string // "Type.mu" -> fields guarded by the owning container's lock
+	Complete    bool
 }
 
 type ContractSet struct {
@@ -146,7 +151,8 @@ var clauseKeywords = map[string]bool{
 	"ghost": true, "assigns": true, "modular": true, "inline": true, "trusted": true,
 	"mode": true, "alloc_bound": true, "pure": true, "protected_by": true, "immutable": true,
 	"inv": true, "opaque": true, "havoc": true, "noinline": true, "bounded": true, "returns_fresh": true,
-	"sweep": true, "cover": true, "replay_hint": true, "never_writes": true, "frame_only": true, "reveal": true, "nostrlen": true, "opaque_strings": true, "merge_branches": true, "iface_calls_only": true, "direct_calls_only": true,
+	"sweep": true, "cover": true, "replay_hint": true, "never_writes": true, "frame_only": true, "reveal": true, "iface_calls_only": true, "direct_calls_only": true,
+	"requires_held": true, "unshared_receiver": true, "sync": true, "owner_lock": true, "complete": true,
 }
 
 // ParseContractFile reads one file and adds its declarations to cs. pkgKey is
@@ -179,7 +185,7 @@ func (cs *ContractSet) ParseContractFile(path string, pkgPath string) error {
 		if k := strings.IndexAny(t, " \t"); k >= 0 {
 			first = t[:k]
 		}
-		if !clauseKeywords[first] && len(lines) > 0 {
+		if !clauseKeywords[strings.TrimSuffix(first, ":")] && len(lines) > 0 {
 			lines[len(lines)-1].text += " " + t
 			continue
 		}
@@ -190,6 +196,9 @@ func (cs *ContractSet) ParseContractFile(path string, pkgPath string) error {
 	var lastSpec *SpecFunc
 	for _, l := range lines {
 		word, rest := splitWord(l.text)
+		if strings.HasSuffix(word, ":") && clauseKeywords[strings.TrimSuffix(word, ":")] {
+			word, rest = strings.TrimSuffix(word, ":"), ":"+rest
+		}
 		mkClause := func(s string) (Clause, error) {
 			tag := ""
 			s = strings.TrimSpace(s)
@@ -224,10 +233,20 @@ func (cs *ContractSet) ParseContractFile(path string, pkgPath string) error {
 			if !extern && pkgPath != "" {
 				key = pkgPath + "." + key
 			}
-			cur = &FuncContract{Key: key, File: path, Loops: map[int]*LoopContract{}, Nullable: map[string]bool{}, Flags: map[string]string{}, Extern: extern, Params: params, Results: results}
 			if old, ok := cs.Funcs[key]; ok {
-				return fmt.Errorf("%s:%d: duplicate contract for %s (also in %s)", path, l.no, key, old.File)
+				// the same function may carry clauses in several contract files (one per property): they are merged;
+				// a second block in the SAME file is still an error
+				if old.File == path || old.Extern != extern {
+					return fmt.Errorf("%s:%d: duplicate contract for %s (also in %s)", path, l.no, key, old.File)
+				}
+				cur = old
+				if len(cur.Params) == 0 {
+					cur.Params, cur.Results = params, results
+				}
+				cur.MoreFiles = append(cur.MoreFiles, path)
+				break
 			}
+			cur = &FuncContract{Key: key, File: path, Loops: map[int]*LoopContract{}, Nullable: map[string]bool{}, Flags: map[string]string{}, Extern: extern, Params: params, Results: results}
 			cs.Funcs[key] = cur
 		case "type":
 			cur = nil
@@ -235,7 +254,7 @@ func (cs *ContractSet) ParseContractFile(path string, pkgPath string) error {
 			if pkgPath != "" {
 				name = pkgPath + "." + name
 			}
-			curType = &TypeContract{Name: name, ProtectedBy: map[string][]string{}}
+			curType = &TypeContract{Name: name, ProtectedBy: map[string][]string{}, OwnerLock: map[string][]string{}}
 			cs.Types[name] = curType
 		case "protected_by":
 			if curType == nil {
@@ -257,6 +276,31 @@ func (cs *ContractSet) ParseContractFile(path string, pkgPath string) error {
 			for _, f := range strings.Split(rest, ",") {
 				curType.Immutable = append(curType.Immutable, strings.TrimSpace(f))
 			}
+		case "sync":
+			if curType == nil {
+				return fmt.Errorf("%s:%d: sync outside type", path, l.no)
+			}
+			rest = strings.TrimPrefix(strings.TrimSpace(rest), ":")
+			for _, f := range strings.Split(rest, ",") {
+				curType.Sync = append(curType.Sync, strings.TrimSpace(f))
+			}
+		case "owner_lock":
+			if curType == nil {
+				return fmt.Errorf("%s:%d: owner_lock outside type", path, l.no)
+			}
+			k := strings.Index(rest, ":")
+			if k < 0 {
+				return fmt.Errorf("%s:%d: owner_lock Type.mu: fields", path, l.no)
+			}
+			ow := strings.TrimSpace(rest[:k])
+			for _, f := range strings.Split(rest[k+1:], ",") {
+				curType.OwnerLock[ow] = append(curType.OwnerLock[ow], strings.TrimSpace(f))
+			}
+		case "complete":
+			if curType == nil {
+				return fmt.Errorf("%s:%d: complete outside type", path, l.no)
+			}
+			curType.Complete = true
 		case "inv":
 			if curType == nil {
 				return fmt.Errorf("%s:%d: inv outside type", path, l.no)
